@@ -109,7 +109,7 @@ class Module:
 
 
 class Repo:
-    def __init__(self, root: str):
+    def __init__(self, root: str, align: bool = True):
         self.root = os.path.abspath(root)
         self.src = os.path.join(self.root, "src", PACKAGE)
         if not os.path.isdir(self.src):
@@ -119,6 +119,63 @@ class Repo:
         for fn in sorted(os.listdir(self.src)):
             if fn.endswith(".py"):
                 self._load(fn)
+        self.renamed: Dict[str, Dict[str, str]] = {}
+        self.reference: Dict[str, Module] = {}
+        self.inlined: Dict[str, List[str]] = {}
+        self._shape: Dict[Tuple[str, str], str] = {}
+        if align:
+            self._align()
+
+    def _align(self) -> None:
+        """Rename locals to the names of the reference copy (sa/align.py): rules become independent of local names."""
+        from .align import align_function
+
+        ref_dir = os.path.join(os.path.dirname(os.path.dirname(os.path.abspath(__file__))), "spec", "reference")
+        if not os.path.isdir(ref_dir):
+            return
+        for name, m in self.modules.items():
+            path = os.path.join(ref_dir, name + ".py")
+            if not os.path.exists(path):
+                continue
+            try:
+                with open(path) as f:
+                    ref = Module(name, path, path, "", ast.parse(f.read()), "")
+                ref._index()
+            except SyntaxError:
+                continue
+            self.reference[name] = ref
+            # undo "extract function": inline helpers that the reference does not have (sa/inline.py)
+            try:
+                from .inline import inline_in_function
+
+                new_top = {q: f.node for q, f in m.funcs.items() if "." not in q and q not in ref.funcs}
+                for q, fi in list(m.funcs.items()):
+                    if "<locals>" in q or q not in ref.funcs:
+                        continue
+                    helpers = dict(new_top)
+                    if fi.cls is not None:
+                        for q2, f2 in m.funcs.items():
+                            if q2.startswith(fi.cls.name + ".") and q2.count(".") == 1 and q2 not in ref.funcs:
+                                helpers[f2.node.name] = f2.node
+                    for q2, f2 in m.funcs.items():
+                        if q2.startswith(q + ".<locals>.") and q2 not in ref.funcs:
+                            helpers[f2.node.name] = f2.node
+                    if helpers:
+                        log: List[str] = []
+                        inline_in_function(fi.node, helpers, fi.cls.name if fi.cls is not None else None, log)
+                        if log:
+                            self.inlined[f"{name}.{q}"] = log
+            except Exception as ex:  # inlining is an aid; without it the rules see the calls
+                self.inlined[f"{name}.<error>"] = [repr(ex)]
+            for q, fi in m.funcs.items():
+                if "<locals>" in q or q not in ref.funcs:
+                    continue
+                try:
+                    mp = align_function(ref.funcs[q].node, fi.node)
+                except Exception:
+                    mp = {}
+                if mp:
+                    self.renamed[f"{name}.{q}"] = mp
 
     def _load(self, fn: str) -> None:
         path = os.path.join(self.src, fn)
@@ -140,6 +197,31 @@ class Repo:
         )
         m._index()
         self.modules[name] = m
+
+    def shape_status(self, module: str, qualname: str) -> Optional[str]:
+        """How the function differs *structurally* from the reference copy (sa/shape.py):
+        'ok' identical, 'fact' same skeleton (identifiers/constants/operators differ), 'missing' statements removed only,
+        'shape' statements added or rewritten in another form, None unknown (no reference)."""
+        key = (module, qualname)
+        if key in self._shape:
+            return self._shape[key]
+        st: Optional[str] = None
+        ref = self.reference.get(module)
+        m = self.modules.get(module)
+        if ref is not None and m is not None and qualname in m.funcs:
+            if qualname not in ref.funcs:
+                st = "shape"
+            else:
+                from .shape import classify_block
+
+                try:
+                    st, _ = classify_block(m.funcs[qualname].node.body, ref.funcs[qualname].node.body)
+                    if st != "shape" and ast.unparse(m.funcs[qualname].node.args) != ast.unparse(ref.funcs[qualname].node.args):
+                        st = "fact" if st == "ok" else st
+                except Exception:
+                    st = "shape"
+        self._shape[key] = st
+        return st
 
     # ---- anchors -------------------------------------------------------
     def module(self, name: str) -> Module:
